@@ -96,6 +96,7 @@ func (e *verifC08_executor) CheckReadiness(ctx context.Context) error {
 }
 
 func (e *verifC08_executor) Execute(ctx context.Context, filePool pool.FilePool, monitor access.UnreadDirectoryMonitor, digestFunction digest.Function, request *remoteworker.DesiredState_Executing, updates chan<- *remoteworker.CurrentState_Executing) *remoteexecution.ExecuteResponse {
+	rt.NativeDelay() // the goroutine of a new action is not scheduled at once
 	e.running++
 	if e.running > e.maxRunning {
 		e.maxRunning = e.running
